@@ -347,6 +347,18 @@ def full_passes_and_long_life(chk):
             chk.violation(dict(kind="long-life", what="panic", m=c["m"]), dict(kind="long-life", case=c, seed=chk.seed))
         elif c["bad"]:
             chk.violation(dict(kind="long-life", what="history-after-reset", m=c["m"]), dict(kind="long-life", case=c, seed=chk.seed))
+    out = os.path.join(chk.wd, "shorthist.json")
+    harness("c17", ["shorthist", "out=" + out, "seed=%d" % chk.seed], timeout=1500)
+    nh = 0
+    for c in json.load(open(out))["cases"]:
+        chk.add("evaluations", c["histories"])
+        nh += c["histories"]
+        if c.get("panic"):
+            chk.violation(dict(kind="short-history", what="panic", m=c["m"]), dict(kind="short-history", case=c, seed=chk.seed))
+        elif c["bad"]:
+            chk.violation(dict(kind="short-history", what="history-after-reset", m=c["m"]), dict(kind="short-history", case=c, seed=chk.seed))
+    log("[C17] every history of <= 3 draws with offsets in {0,1,2,3,last} followed by a reset, m = 5..70001: %d histories, "
+        "the pass after the reset equals a new object's" % nh)
     chk.cov["long_life_cycles"] = cycles
     log("[C17] complete passes at m = 2^20+1, 1500001, 2^21-7, 70001 are permutations; one object through %d (draws, reset) cycles: "
         "%d passes compared with a new object's" % (cycles, nchecks))
@@ -385,10 +397,12 @@ def replay(chk, path):
     sc = json.load(open(path))["scenario"]
     build_harness("c17")
     bad = False
-    if sc["kind"] in ("full-pass", "long-life"):
+    if sc["kind"] in ("full-pass", "long-life", "short-history"):
         out = os.path.join(chk.wd, "replay_%s.json" % sc["kind"])
         if sc["kind"] == "full-pass":
             harness("c17", ["fullperm", "out=" + out, "seed=%d" % sc["seed"]], timeout=1500)
+        elif sc["kind"] == "short-history":
+            harness("c17", ["shorthist", "out=" + out, "seed=%d" % sc["seed"]], timeout=1500)
         else:
             harness("c17", ["longlife", "out=" + out, "seed=%d" % sc["seed"], "cycles=%d" % sc["case"]["cycles"]], timeout=1500)
         for c in json.load(open(out))["cases"]:
